@@ -190,6 +190,69 @@ def runtime_lines(ctx):
             ctx.fail("%s carries line %s; the offending command/argument is on line %r" % (err, parts[2], lines), {"source": src})
 
 
+def cli_marks(ctx, count):
+    """the command-line tool, run in-process on files with a fault at a known line: the line it marks with `-->` is that line of the file, also when
+    comment lines and quoted strings above it hold characters that some text utilities treat as line breaks (form feed, vertical tab, file/group/
+    record separators, NEL, U+2028/2029), with LF or CRLF line ends and with multi-line quoted strings"""
+    import os
+    from click.testing import CliRunner
+    from mpilot.cli.mpilot import main
+    rng = ctx.rng
+    tmp = common.tmpdir("mpv_c11_")
+    open(os.path.join(tmp, "in.csv"), "w").write("a,b\n1,2\n3,4\n")
+    exotic = ["\x0c", "\x0b", "\x1c", "\x1d", "\x1e", "\x85", "\u2028", "\u2029", "é", " "]
+    try:
+        runner = CliRunner(mix_stderr=False)
+    except TypeError:
+        runner = CliRunner()
+    for i in range(count):
+        nl = rng.choice(["\n", "\n", "\r\n"])
+        lines = []
+        for j in range(rng.randrange(0, 6)):
+            r = rng.random()
+            x = rng.choice(exotic)
+            if r < 0.35:
+                lines.append("# note %d %s more" % (j, x))
+            elif r < 0.5:
+                lines.append("")
+            elif r < 0.8:
+                lines.append('V%d = EEMSRead(InFileName = "in.csv", InFieldName = a, Metadata = [Note: "x%sy"])' % (j, x))
+            else:
+                # a quoted string holding a real line break: two file lines
+                lines.append('W%d = EEMSRead(InFileName = "in.csv", InFieldName = a, Metadata = [Note: "two' % j)
+                lines.append('lines%s"])' % x)
+        fault, err = rng.choice([
+            (["Bad = Nope(X = 1)"], 0), (['Bad = EEMSRead(InFileName = "in.csv")'], 0), (["Bad = EEMSRead(", '  InFileName = "nofile.csv",', "  InFieldName = a)"], 1),
+            (["Bad = Normalize(", "  InFieldName = V0,", "  StartVal = [1, 2]", ")"], 2), (['Bad = EEMSRead(InFileName = "in.csv", InFieldName = a, Bogus = 1)'], 0)])
+        if fault[0].startswith("Bad = Normalize") and not any(l.startswith("V0 =") for l in lines):
+            lines.insert(0, 'V0 = EEMSRead(InFileName = "in.csv", InFieldName = a)')
+        true_line = len(lines) + err + 1
+        lines += fault
+        for j in range(rng.randrange(0, 3)):
+            lines.append("# after %s" % rng.choice(exotic))
+        text = nl.join(lines) + nl
+        path = os.path.join(tmp, "m%d.mpt" % (i % 8))
+        with open(path, "w", encoding="utf-8", newline="") as f:
+            f.write(text)
+        res = runner.invoke(main, ["eems-csv", path])
+        try:
+            err_text = res.stderr
+        except ValueError:
+            err_text = res.output
+        ctx.case("cli-mark " + text, sample={"file": text[:300], "exit": res.exit_code})
+        ctx.count("cli_mark_cases")
+        desc = {"command_file": text, "true_line": true_line, "stderr": (err_text or "")[-500:], "exit": res.exit_code}
+        marked = [l for l in (err_text or "").split("\n") if l.startswith("--> ")]
+        if res.exception is not None and not isinstance(res.exception, SystemExit):
+            ctx.fail("CLI died with %s instead of reporting the fault at line %d" % (type(res.exception).__name__, true_line), desc)
+        elif res.exit_code == 0:
+            ctx.fail("CLI exited 0 on a model with a fault at line %d" % true_line, desc)
+        elif not marked:
+            ctx.fail("CLI marked no line; the fault is at line %d" % true_line, desc)
+        elif marked[0][4:].rstrip("\r") != lines[true_line - 1]:
+            ctx.fail("CLI marked %r; the offending line %d is %r" % (marked[0][4:], true_line, lines[true_line - 1]), desc)
+
+
 def run(ctx):
     ctx.check_proofs(["MPilot.Props.C11"])
     model = common.Model()
@@ -213,6 +276,7 @@ def run(ctx):
     fault_lines(ctx, model)
     cycle_lines(ctx)
     runtime_lines(ctx)
+    cli_marks(ctx, ctx.budget(30, 600))
     return ctx.finish(
         rule="(a) renderings with blank/comment lines, trailing comments, arguments and lists spread over several lines, LF or CRLF, the true line of every "
              "node recorded by the renderer; (b) the same after 0-3 earlier parses on one Parser (valid, EEMS-2.0, failing late) and after earlier loads in the process; "
